@@ -81,6 +81,13 @@ FromBbanOutcome(e) ==
              ELSE "ok"
         ELSE IF e.out.k = "ok" /\ ~e.ai /\ ~Valid(Table, e.out.val) /\ ~Unsettled(Table, e.out.val)
              THEN "accepted-but-invalid"
+        \* whatever the flags: when what comes back is country code, two digits and a BBAN that fits the
+        \* country's structure, the digits are the ones the standard prescribes (they were computed)
+        ELSE IF e.out.k = "ok" /\ Len(e.out.val) > 4 /\ Known(Table, e.out.val)
+                /\ Table[CountryKey(e.out.val)].consistent /\ AllIn(Bban(e.out.val), IsAlnum)
+                /\ FitsBban(Bban(e.out.val), Table[CountryKey(e.out.val)]) /\ ~Valid(Table, e.out.val)
+                /\ ~Unsettled(Table, e.out.val)
+             THEN "wrong-check-digits"
              ELSE "ok"
 
 \* ------------------------------------------------- decomposition (C11)
